@@ -54,7 +54,22 @@ fn basis_event(key: &str, k: usize, t: &Vec<f64>, xs: &[f64]) -> Value {
             }
         }
     }
-    json!({"key": key, "op": "basis", "k": k, "t": fvec(t), "xs": fvec(xs), "vals": vals, "m0_via_deriv": via_d, "dvals": dvals, "o": o})
+    // the vector entry point (`PPSpline::bspldnev`, what Python's `bsplev` / `bspldnev` call) on the points in REVERSE order:
+    // point by point it must be the single-point function
+    let rev: Vec<f64> = xs.iter().rev().cloned().collect();
+    let sp: PPSpline<f64> = PPSpline::new(k, t.clone(), None);
+    let mut vec_rev = vec![];
+    for i in 0..n {
+        let mut per_m = vec![];
+        for m in 0..=1usize {
+            match guard(|| sp.bspldnev(&rev, &i, &m)) {
+                Outcome::Ok(v) => per_m.push(fvec(&v)),
+                Outcome::Panic(_) => { o = "panic"; per_m.push(json!([])) }
+            }
+        }
+        vec_rev.push(Value::Array(per_m));
+    }
+    json!({"key": key, "op": "basis", "k": k, "t": fvec(t), "xs": fvec(xs), "vals": vals, "m0_via_deriv": via_d, "dvals": dvals, "vec_rev": vec_rev, "o": o})
 }
 
 /// TLC-generated knot vectors (MC_BSpline.CaseSeq): k, t (integers as doubles), nx quarter points
